@@ -8,14 +8,15 @@
 (*   [op |-> "get", key, size]        (only successful look-ups are seen)  *)
 (* The model state is the sequence of keys, least recently used first,     *)
 (* with Hist!Put / Hist!Touch:  a set at capacity evicts the head (even    *)
-(* when it overwrites), a get moves the key to the end and needs it there. *)
+(* when it overwrites; an overwritten key keeps its position), a get moves *)
+(* the key to the end and needs it there.                                  *)
 (***************************************************************************)
 EXTENDS Naturals, Sequences, FiniteSets, TLC, Json, IOUtils, SequencesExt
 
 T == ndJsonDeserialize(IOEnv.TRACE_FILE)
 
 Put(l, k, cap) == LET base == IF Len(l) >= cap THEN Tail(l) ELSE l IN
-                  (IF k \in {base[i] : i \in DOMAIN base} THEN SelectSeq(base, LAMBDA x : x # k) ELSE base) \o <<k>>
+                  IF k \in {base[i] : i \in DOMAIN base} THEN base ELSE base \o <<k>>      \* overwriting keeps the key's position
 Touch(l, k) == SelectSeq(l, LAMBDA x : x # k) \o <<k>>
 Has(l, k) == k \in {l[i] : i \in DOMAIN l}
 
